@@ -248,7 +248,9 @@ def c07(ctx, res):
     forms = set()
     for e in cp["emit_fail"]:
         cases.append((e["source"], e["stack"], "emit_fail"))
-        forms.add(e["form"])
+        forms.add(e["form"].replace("_tight", ""))
+        if e["form"].endswith("_tight"):
+            res.cls("emit_fail_minimal_program")
     res.extra["emit_fail_forms"] = sorted(forms)
     for f in ("BR", "LD", "LDI", "LEA", "ST", "STI", "JSR", "CALL"):
         if f in forms:
@@ -257,10 +259,12 @@ def c07(ctx, res):
         cases.append((e["source"], e["uses_stack_ext"], "mixed:" + e["verdict"]))
         if e["uses_stack_ext"]:
             cases.append((e["source"], False, "stack_ext_without_flag"))
+    for e in cp["top_of_memory"]:
+        cases.append((e["source"], False, "top_of_memory"))
     for e in cp["structured"][:40 if not ctx.thorough() else 600]:
         cases.append((e["source"], e["stack"], "valid"))
     if not ctx.thorough():
-        cases = cases[:150]
+        cases = cases[:190]
 
     def one(ix):
         src, stack, tag = cases[ix]
@@ -291,20 +295,20 @@ def c07(ctx, res):
         if om == "diagnostic":
             res.cls("both_reject")
             # run must not accept what compile rejects (it may fail later at run time for other reasons)
-            if b"Running" in run.out:
+            if _run_assembled(run):
                 detail["run"] = run.brief()
                 res.violate("C07/compile-fails-run-assembles/" + tag.split(":")[0], "`lace compile` rejects the source but `lace run` assembled and started it", detail)
         else:
             res.cls("both_accept")
             if oc != "ok":
                 res.violate("C07/compile-ok-check-fails/" + tag.split(":")[0], "`lace compile` succeeds but `lace check` reports an error", detail)
-            elif b"Running" not in run.out:
+            elif not _run_assembled(run) and run.rc is not None:
                 detail["run"] = run.brief()
-                res.violate("C07/compile-ok-run-rejects/" + tag.split(":")[0], "`lace compile` succeeds but `lace run` did not assemble the source", detail)
+                res.violate("C07/compile-ok-run-rejects/" + tag.split(":")[0], "`lace compile` succeeds but `lace run` reports an assembly error", detail)
         if ix % 40 == 0:
             res.samples.append({"source": src[:400], "stack_flag": stack, "check": oc, "compile": om, "run_exit": run.rc})
-    res.require(["tag:emit_fail", "tag:mixed", "tag:valid", "tag:stack_ext_without_flag", "flag:stack", "flag:none",
-                 "both_accept", "both_reject"] + ["emit_fail_form:" + f for f in ("BR", "LD", "LDI", "LEA", "ST", "STI", "JSR", "CALL")], "L2")
+    res.require(["tag:emit_fail", "tag:mixed", "tag:valid", "tag:top_of_memory", "tag:stack_ext_without_flag", "flag:stack", "flag:none",
+                 "both_accept", "both_reject", "emit_fail_minimal_program"] + ["emit_fail_form:" + f for f in ("BR", "LD", "LDI", "LEA", "ST", "STI", "JSR", "CALL")], "L2")
     # ---- watch: every re-check equals a fresh check
     hist_n = 1 if not ctx.thorough() else 12
     for h in range(hist_n):
@@ -312,6 +316,13 @@ def c07(ctx, res):
     watch_history(ctx, res, cp, "C07", 50, stack=True)
     res.require(["watch_recheck", "watch_recheck_with_stack_flag"], "L2")
     return res
+
+
+def _run_assembled(run):
+    """`lace run` got past assembling: it started the program, or failed in the loader / VM
+    (an `exception:` line or the stack-feature halt), which is not an assembly verdict."""
+    return (b"Running" in run.out or b"exception:" in run.err or b"reserved instruction" in run.err
+            or b"end of input" in run.err)
 
 
 CLEAR = re.compile(r"\x1b\[2J\x1b\[2;1H")
@@ -433,6 +444,10 @@ def c08(ctx, res):
         for pre in (True, False):
             cases.append(("emit_fail@%d/%d" % (e["fail_position"], e["statements"]), e["source"], e["stack"], "out.lc3", pre, None))
     good = [e for e in cp["structured"] if len(e["image"]) < 60][:6 if not ctx.thorough() else 40]
+    for e in cp["top_of_memory"]:
+        img = b"".join(int(w).to_bytes(2, "big") for w in e["image"])
+        for pre in (True, False):
+            cases.append(("ok_top_of_memory", e["source"], False, "out.lc3", pre, img))
     for e in good:
         img = b"".join(int(w).to_bytes(2, "big") for w in e["image"])
         for pre in (True, False):
@@ -493,7 +508,7 @@ def c08(ctx, res):
                                 "before": _snap_brief(before), "after": _snap_brief(after)})
     # ---- strace: injected write errors on the k-th write of a successful compile
     c08_inject(ctx, res, good[:1 if not ctx.thorough() else 6], d)
-    floors = ["fault:emit_fail", "fault:ok", "fault:dev_full", "fault:missing_parent", "fault:dest_is_directory",
+    floors = ["fault:emit_fail", "fault:ok", "fault:ok_top_of_memory", "fault:dev_full", "fault:missing_parent", "fault:dest_is_directory",
               "dest:pre-existing", "dest:absent", "success_complete", "failure_destination_untouched"]
     res.require(floors, "L2")
     return res
@@ -570,7 +585,7 @@ def c14_transport(ctx, res):
             "b a loop", "break list", "bl", "continue", "c", "assembly", "a x3001", "move r3 #7", "goto x3002", "eval add r4 r4 #1",
             "bogus", "print", "si x", "break remove x3004", "reset", "help",
             # multi-byte characters: the argument reader and the stdin reader split on bytes/chars differently
-            "echo caf\u00e9", "echo \u20acab", "print \uff12", "echo \U0001F34B lemon", "\u00e9", "echo a\u00e9b"]
+            "  ", " ", "echo caf\u00e9", "echo \u20acab", "print \uff12", "echo \U0001F34B lemon", "\u00e9", "echo a\u00e9b"]
     n_scripts = 20 if not ctx.thorough() else 300
     jobs = []
     scripts = []
